@@ -82,5 +82,12 @@ def r03_6(ctx):
 r03_6.rule_id = "R03.6"
 
 
-RULES = [r03_1, r03_2, r03_3, r03_4, r03_5, r03_6]
-FLOORS = {"R03.1r": 8, "R03.1": 7, "R03.2": 3, "R03.3": 10, "R03.4": 14, "R03.5": 8, "R03.6": 1}
+def r03_7(ctx):
+    n = smr.rule_dhp_extend_cursor(ctx, "R03.7", "Otherwise a retired object is disposed twice (C03).")
+    if n < 1:
+        ctx.broken("retired_array::extend() cursor moves / call sites not found")
+r03_7.rule_id = "R03.7"
+
+
+RULES = [r03_1, r03_2, r03_3, r03_4, r03_5, r03_6, r03_7]
+FLOORS = {"R03.1r": 8, "R03.1": 7, "R03.2": 3, "R03.3": 10, "R03.4": 14, "R03.5": 8, "R03.6": 1, "R03.7": 1}
